@@ -345,8 +345,9 @@ def stub_inference_model(ex):
 
 def run_schedule(reader: str, start: int, end: int, cap: int, batch: int, fault, choices: str,
                  default: str = "P", fault_in_image: bool = False, defaults: bool = False,
-                 instances_key: bool = False) -> dict:
+                 instances_key: bool = False, yield_point: bool = False) -> dict:
     """One controlled execution.  `reader` is 'video' or 'labels' (labels: start must be 0).
+    `yield_point`: make the hand-over of a yielded batch a scheduling point too.
     `defaults`: construct the VideoReader with start_idx=None, end_idx=None (start must be 0; the
     fake video then has exactly `end` frames).
     Returns the trace, the yielded batches, the status and the choice letters used."""
@@ -383,6 +384,10 @@ def run_schedule(reader: str, start: int, end: int, cap: int, batch: int, fault,
                 if "inst0" in out:
                     rec["inst0"] = [float(x) for x in out["inst0"]]
                 yielded.append(rec)
+                if yield_point:
+                    # the caller of the generator is slow: the reader may run between the last get of a
+                    # batch and the moment the batch is handed over
+                    ctl.park("C", ("yield",))
                 ctl.event("yield", rec["frame_idx"])
         except BaseException as e:      # noqa: BLE001
             err = e
@@ -393,8 +398,10 @@ def run_schedule(reader: str, start: int, end: int, cap: int, batch: int, fault,
     ct = threading.Thread(target=consumer, daemon=True, name="sv-c13-consumer")
     ct.start()
     status = ctl.drive()
-    ct.join(timeout=WATCHDOG_S)
-    threading.Thread.join(rd, timeout=WATCHDOG_S) if rd.ident is not None else None
+    grace = WATCHDOG_S if status == "ok" else 2.0      # after a hang the hung (daemon) thread is abandoned
+    ct.join(timeout=grace)
+    if rd.ident is not None:
+        threading.Thread.join(rd, timeout=grace)
     leaked = [t for t in (ct, rd) if t.ident is not None and t.is_alive()]
     return {"status": status, "trace": ctl.trace, "yielded": yielded, "taken": "".join(ctl.taken),
             "choice_points": ctl.n_choice_points, "errors": ctl.errors,
